@@ -115,4 +115,19 @@ TEXT = {
         note="Trusted: RefDB and its applier (same for both twins). Leak probes: TLOAD-before-TSTORE, cold EXTCODESIZE gas, Prague-only precompile.",
         technique="runtime monitoring: differential execution (reused vs fresh instance) with fault injection at the Database boundary and a post-call state invariant",
     ),
+    "C05": dict(
+        level="Exhaustive over the finite space: 256 opcode bytes x 20 SpecIds and 21 addresses x 20 SpecIds, each executed through the real Evm and compared with a hand-written introduction table (one line per opcode/precompile with its EIP).",
+        note="Trusted: the introduction table (DESIGN Appendix A.1) and the per-precompile probe inputs/outputs. 'Undefined' = result class OpcodeNotFound|NotActivated|EOFOpcodeDisabledInLegacy|InvalidFEOpcode|ReturnContractInNotInitEOF plus a halt that uses the whole gas limit.",
+        technique="runtime monitoring: exhaustive directed sweep observed at the instruction boundary (inspector) with a reference table",
+    ),
+    "C11": dict(
+        level="Held on every history/execution observed: direct SharedMemory histories against Vec<Vec<u8>> with the checkpoint-invariant hook H2 and the exact quadratic charge, plus the online per-frame monitor on generated programs (empty at frame start, word-aligned, monotone, parent memory identical outside the return window).",
+        note="Trusted: the Vec model, the u128 cost formula, mon.rs. Miri/ASan lanes for the unsafe accessors run under C25.",
+        technique="runtime monitoring: API history vs executable model with an invariant hook, plus online assertions at inspector hooks",
+    ),
+    "C14": dict(
+        level="Held on every argument tuple observed (apart from the listed num_words finding): exhaustive finite matrices (SSTORE cost/refund, call_cost, selfdestruct_cost, exp byte lengths) and boundary sweeps of every length-dependent function per SpecId against formulas written from the EIPs in 128-bit arithmetic; resize_memory at gas 2^64-1 in a child process.",
+        note="Trusted: the reference formulas (DESIGN Appendix A.2).",
+        technique="runtime monitoring: differential direct calls against exact reference formulas (exhaustive finite sub-spaces + boundary sweeps)",
+    ),
 }
